@@ -334,6 +334,11 @@ func init() {
 					}
 				}
 			})
+			if w.Thorough() {
+				chunked(w, "child-process-protocol:FLfull+FLserde<=1:dagre", 8, func(emit func(string, string)) {
+					forPrograms("", cat(full, serde), 1, func(src string) { emit("exec", mkIn("dagre", src)) })
+				})
+			}
 			if !w.Thorough() {
 				pairs := cat(flSerde, flNames, small)
 				chunked(w, "FLserde'=2:dagre", 6, func(emit func(string, string)) {
@@ -345,9 +350,6 @@ func init() {
 				})
 				chunked(w, "FLsmall=2:elk", 8, func(emit func(string, string)) {
 					forPrograms("", small, 2, func(src string) { emit("layout", mkIn("elk", src)) })
-				})
-				chunked(w, "child-process-protocol:FLfull+FLserde<=1:dagre", 8, func(emit func(string, string)) {
-					forPrograms("", cat(full, serde), 1, func(src string) { emit("exec", mkIn("dagre", src)) })
 				})
 				chunked(w, "names=2:N->b,c:{N}:dagre", 8, func(emit func(string, string)) {
 					u.Seqs(sigmaS, 2, func(s []string) {
